@@ -103,6 +103,22 @@ Theorem C05_defaults_in_tables :
 Proof. exact default_in_tables. Qed.
 Print Assumptions C05_defaults_in_tables.
 
+(* the source removes the markers with an index loop (collect indices in reverse, list.pop each):
+   for every list it never raises IndexError and yields exactly the filter used by `negotiate` *)
+Theorem C05_strip_loop :
+  forall l : list name, strip_markers_loop l = Some (strip_markers l).
+Proof. exact strip_loop_eq. Qed.
+Print Assumptions C05_strip_loop.
+
+(* gss_kex=True (Transport.__init__ prepends _preferred_gsskex): the tuple still names table
+   entries only, so every premise above is met by that configuration too *)
+Theorem C05_gss_defaults_in_tables :
+  forall sk m s,
+    cfg_in_tables (mkConfig (init_kex true) pref_keys pref_ciphers pref_macs pref_compression
+                            [] [] [] [] [] sk m s) = true.
+Proof. exact gss_in_tables. Qed.
+Print Assumptions C05_gss_defaults_in_tables.
+
 (* the behaviour before fixes/C05-gex-advertised-without-moduli.diff: a server without a modulus
    pack listed the group-exchange methods it then refused, so a client preferring them ends up
    with a different kex algorithm than the server *)
